@@ -273,7 +273,7 @@ func illFormed(r *rand.Rand) (string, string) {
 
 func TestTotalityAndWellFormedness(t *testing.T) {
 	run := vf.Cur()
-	sub := run.Sub("totality-wellformedness", "inputs: arbitrary byte strings, YAML-token and byte mutations (null items, duplicate keys, anchors, wrong types, damaged indentation) of every fixture under config/testdata, doc/examples, examples/ and of generated configurations, and structurally generated configurations that violate exactly one well-formedness clause; config.Load must return within the watchdog without panic, an ill-formed generated configuration must be rejected, and whenever a configuration is returned an independent walker asserts every clause of the statement on it and the route/intervener constructors accept it and route every probe label set to >=1 receiver; non-trivial = the input was accepted or is a structured ill-formed configuration; distinct by input", 500)
+	sub := run.Sub("totality-wellformedness", "inputs: arbitrary byte strings, YAML-token and byte mutations (null items, duplicate keys, anchors, wrong types, damaged indentation) of every fixture under config/testdata, doc/examples, examples/ and of generated configurations, documents assembled by reflection over the configuration types (random subsets of every key of the global block, of every receiver integration and of their nested blocks, with plausible / null / wrong-shape values, x and x_file pairs favoured), and structurally generated configurations that violate exactly one well-formedness clause; config.Load must return within the watchdog without panic, an ill-formed generated configuration must be rejected, and whenever a configuration is returned an independent walker asserts every clause of the statement on it and the route/intervener constructors accept it and route every probe label set to >=1 receiver; non-trivial = the input was accepted or is a structured ill-formed configuration; distinct by input", 500)
 	fx := fixtures()
 	if len(fx) < 20 {
 		run.Broken(fmt.Sprintf("only %d fixtures found", len(fx)))
@@ -324,7 +324,13 @@ func TestTotalityAndWellFormedness(t *testing.T) {
 	}
 	vf.Parallel(t, n, 16, func(t *testing.T, i int) {
 		r := sub.Rand(i)
-		switch k := r.Intn(10); {
+		switch k := r.Intn(13); {
+		case k >= 10:
+			y := reflectConfig(r)
+			if k == 12 {
+				y = mutate(r, y)
+			}
+			judge(i, y, "assembled from the configuration types", "")
 		case k == 0:
 			b := make([]byte, r.Intn(200))
 			r.Read(b)
